@@ -1442,7 +1442,7 @@ func main() {
 	c.Rep.Rule = "corpus (every special input and output type, sparse/ordinary aggregate masks on both sides of max/8+1 > 2*len, " +
 		"count/index/version limits, short strings), then families drawn from one SplitMix64 stream: a structured transaction value " +
 		"(0-9 inputs incl. deposit/mint/genesis, 0-9 outputs of all types incl. withdrawal data, references, extra, signature maps in random " +
-		"entry order or an aggregated signature) -> its encoding, 3-5 single-byte mutations/truncations/extensions/deletions of it, a hand-written " +
+		"entry order or an aggregated signature) -> its encoding, 2-4 single-byte mutations/truncations/extensions/deletions of it, a hand-written " +
 		"non-canonical encoding of it (unsorted or repeated map index, other mask form, padded mask or amount, wrong map count), a pair with the same " +
 		"payload and another authorization, two pairs with one payload field changed; values the encoder must refuse; arbitrary byte strings. " +
 		"Non-trivial = the decoder accepted, or the string carries the version header and is longer than the asset; for values = Marshal returned. " +
@@ -1455,7 +1455,7 @@ func main() {
 		return
 	}
 	corpus(c)
-	n := c.Scale(330, 12000)
+	n := c.Scale(220, 9000)
 	for i := 0; i < n; i++ {
 		r := c.Rng
 		switch r.Intn(10) {
@@ -1466,7 +1466,7 @@ func main() {
 				runUnmarshal(c, Case{Op: "unmarshal", Kind: "arbitrary-bytes", Hex: hx(randomBytes(r))})
 			}
 		default:
-			family(c, genTx(r), "structured", r.Range(3, 5))
+			family(c, genTx(r), "structured", r.Range(2, 4))
 		}
 	}
 	c.Finish()
